@@ -332,3 +332,122 @@ def check_c04(text, pieces, stmts, resplit):
                 sig = f'strip-cuts-first-token:{tname(leaves[0].ttype)}'
             return ('piece-resplits', sig, f'{p!r} -> {r!r}')
     return None
+
+
+# ------------------------------------------------------------------ C09 reference matcher
+
+def _kw(tt, val, words):
+    """exactly a Keyword token whose blank-normalised upper-cased text is one of `words`"""
+    from sqlparse import tokens as T
+    return tt is not None and tuple(tt) == tuple(T.Keyword) and ' '.join(val.upper().split()) in words
+
+
+def _punct(tt, val, ch):
+    from sqlparse import tokens as T
+    return tt is not None and tuple(tt) == tuple(T.Punctuation) and val == ch
+
+
+# kind name, opener predicate, closer predicate - in the order the property gives ("later kinds
+# inside, never across, groups of earlier kinds")
+C09_KINDS = [
+    ('SquareBrackets', lambda t, v: _punct(t, v, '['), lambda t, v: _punct(t, v, ']')),
+    ('Parenthesis', lambda t, v: _punct(t, v, '('), lambda t, v: _punct(t, v, ')')),
+    ('Case', lambda t, v: _kw(t, v, ('CASE',)), lambda t, v: _kw(t, v, ('END',))),
+    ('If', lambda t, v: _kw(t, v, ('IF',)), lambda t, v: _kw(t, v, ('END IF',))),
+    ('For', lambda t, v: _kw(t, v, ('FOR', 'FOREACH')), lambda t, v: _kw(t, v, ('END LOOP',))),
+    ('Begin', lambda t, v: _kw(t, v, ('BEGIN',)), lambda t, v: _kw(t, v, ('END',))),
+]
+
+
+def ref_spans(leaves):
+    """Textbook staged stack matcher. leaves: [(ttype, value)]. Returns sorted [(kind, first, last)]."""
+    def stage(items, is_open, is_close, kind):
+        out, stack = [], []
+        for it in items:
+            if isinstance(it, tuple):
+                # a group of an earlier kind is its own matching context; "inside" means strictly
+                # between its opener and closer (its own END is not a candidate closer for BEGIN)
+                inner = it[1]
+                out.append((it[0], [inner[0]] + stage(inner[1:-1], is_open, is_close, kind) + [inner[-1]]))
+                continue
+            out.append(it)
+            tt, val = leaves[it]
+            if is_open(tt, val):
+                stack.append(len(out) - 1)
+            elif is_close(tt, val) and stack:
+                o = stack.pop()
+                grp = (kind, out[o:])
+                del out[o:]
+                out.append(grp)
+        return out
+
+    items = list(range(len(leaves)))
+    for kind, is_open, is_close in C09_KINDS:
+        items = stage(items, is_open, is_close, kind)
+    spans = []
+
+    def first(it):
+        return it if not isinstance(it, tuple) else first(it[1][0])
+
+    def last(it):
+        return it if not isinstance(it, tuple) else last(it[1][-1])
+
+    def collect(items):
+        for it in items:
+            if isinstance(it, tuple):
+                spans.append((it[0], first(it), last(it)))
+                collect(it[1])
+    collect(items)
+    return sorted(spans)
+
+
+def real_spans(stmt):
+    """(spans, shape problems) of the six matched-pair classes in the real tree."""
+    from sqlparse import sql
+    leaves = walk_leaves(stmt, [])
+    idx = {id(lf): i for i, lf in enumerate(leaves)}
+    kinds = {sql.SquareBrackets: 'SquareBrackets', sql.Parenthesis: 'Parenthesis', sql.Case: 'Case',
+             sql.If: 'If', sql.For: 'For', sql.Begin: 'Begin'}
+    preds = {k: (o, c) for k, o, c in C09_KINDS}
+    spans, shape = [], []
+    for node, _ in walk_nodes(stmt, (stmt,), []):
+        kind = kinds.get(type(node))
+        if kind is None:
+            continue
+        ch = list(node.tokens)
+        # reading 4: ignore comments attached after the closer (and the whitespace between them)
+        while ch and (is_ws_type(ch[-1].ttype) or is_comment_type(ch[-1].ttype)
+                      or isinstance(ch[-1], sql.Comment)):
+            ch.pop()
+        if not ch:
+            shape.append((kind, 'only-comments'))
+            continue
+        fl = walk_leaves(node, [])[0]
+        ll = ch[-1] if not hasattr(ch[-1], 'tokens') else walk_leaves(ch[-1], [])[-1]
+        spans.append((kind, idx[id(fl)], idx[id(ll)]))
+        is_open, is_close = preds[kind]
+        if hasattr(ch[0], 'tokens') or not is_open(ch[0].ttype, ch[0].value):
+            shape.append((kind, 'first-child-not-opener:' + type(ch[0]).__name__))
+        if hasattr(ch[-1], 'tokens') or not is_close(ch[-1].ttype, ch[-1].value):
+            shape.append((kind, 'last-child-not-closer:' + type(ch[-1]).__name__))
+    return sorted(spans), shape, leaves
+
+
+def check_c09(stmts):
+    for s in stmts:
+        spans, shape, leaves = real_spans(s)
+        exp = ref_spans([(lf.ttype, lf.value) for lf in leaves])
+        if spans != exp:
+            missing = [x for x in exp if x not in spans]
+            extra = [x for x in spans if x not in exp]
+            what = []
+            for k, a, b in missing[:1]:
+                what.append('missing:' + k)
+            for k, a, b in extra[:1]:
+                what.append('extra:' + k)
+            toks = [lf.value for lf in leaves]
+            return ('spans-differ', ','.join(what),
+                    f'real {spans} reference {exp} over leaves {toks}')
+        if shape:
+            return ('shape', f'{shape[0][0]}:{shape[0][1]}', f'{shape} in {str(s)!r}')
+    return None
